@@ -81,7 +81,10 @@ def _run(cmd, log, timeout, mem_gb):
 
 CBMC_FLAGS = ["--no-malloc-may-fail", "--no-undefined-shift-check", "--no-signed-overflow-check", "--nan-check",
               "--no-self-loops-to-assumptions", "--no-pointer-primitive-check", "--object-bits", "16",
-              "--sat-solver", "cadical", "--slice-formula"]
+              "--sat-solver", "cadical", "--slice-formula", "--verbosity", "8"]
+
+import threading
+_RETRY_LOCK = threading.Lock()
 
 def prepare(h, goto_file, mangled, workdir):
     os.makedirs(workdir, exist_ok=True)
@@ -104,7 +107,16 @@ def prepare(h, goto_file, mangled, workdir):
     for s in steps:
         rc = _run(s, log, 900, 48)
         if rc != 0:
-            return None
+            # observed: `goto-instrument --ensure-one-backedge-per-target` needs ~30 GB for harnesses over the larger literal contexts;
+            # two of them at once are killed by the kernel's OOM killer (status -9). The in-place output is only written at the
+            # end, so the step is repeatable: retry once, one at a time
+            with open(log, "a") as lf: lf.write("step failed with status %r; retrying once, serialized\n" % (rc,))
+            with _RETRY_LOCK:
+                time.sleep(3)
+                rc = _run(s, log, 900, 48)
+            if rc != 0:
+                with open(log, "a") as lf: lf.write("step failed again with status %r\n" % (rc,))
+                return None
     return out
 
 def classify(prop):
@@ -114,6 +126,21 @@ def classify(prop):
     return cls
 
 UNSUPPORTED_RE = re.compile(r"is not currently supported by Kani|Kani does not support|undefined function should be unreachable", re.I)
+
+def parse_cbmc_stats(path):
+    """Sizes reported by CBMC for one run: symex steps, VCCs generated / remaining after simplification, SAT variables / clauses."""
+    st = {}
+    try:
+        txt = open(path, errors="replace").read()
+    except Exception:
+        return st
+    x = re.findall(r"size of program expression: (\d+) steps", txt)
+    if x: st["steps"] = int(x[-1])
+    x = re.findall(r"Generated (\d+) VCC\(s\), (\d+) remaining after simplification", txt)
+    if x: st["vccs"] = int(x[-1][0]); st["vccs_remaining"] = int(x[-1][1])
+    x = re.findall(r"(\d+) variables, (\d+) clauses", txt)
+    if x: st["sat_vars"] = max(int(a) for a, b in x); st["sat_clauses"] = max(int(b) for a, b in x)
+    return st
 
 def parse_cbmc_json(path):
     """Returns (props, status, errors). props = list of dict(property, cls, status, description, loc)."""
@@ -173,6 +200,7 @@ def run_harness(h, goto_file, mangled, workdir, time_scale=1.0):
     if rc == "timeout":
         res["verdict"] = "inconclusive"; res["note"] = "cbmc timeout after %ds" % int(h.timeout * time_scale); return res
     props, status, errors = parse_cbmc_json(log)
+    res["cbmc_stats"] = parse_cbmc_stats(log)
     if status is None:
         res["verdict"] = "inconclusive"; res["note"] = "cbmc ended without verdict (rc=%s; out of memory or crash): %s" % (rc, "; ".join(errors)[:300]); return res
     bad_status = [p for p in props if p["status"] not in ("SUCCESS", "FAILURE")]
